@@ -911,6 +911,20 @@ func (x *Exec) step(st *State, f *Frame, ins ssa.Instruction) []*State {
 			}
 			rv = t
 		}
+		for _, pf := range x.cfg.Probes {
+			if pf == f.fn.String() && len(f.fn.Params) > 0 {
+				if pv, ok := f.loc[f.fn.Params[0]].(P); ok && pv.obj != 0 {
+					k := 0
+					for {
+						if _, dup := st.obs[fmt.Sprintf("probe:%s#%d", shortFn(pf), k)]; !dup {
+							break
+						}
+						k++
+					}
+					x.observe(st, fmt.Sprintf("probe:%s#%d", shortFn(pf), k), pv)
+				}
+			}
+		}
 		st.frames = st.frames[:len(st.frames)-1]
 		if len(st.frames) == 0 {
 			st.end = "return"
